@@ -96,6 +96,8 @@ type Engine struct {
 	eager      map[string]bool // callees inside which branch feasibility is decided eagerly
 	eagerDepth int
 	MapOrderND bool
+	MapOrderLabel string
+	permSite   int
 	feasCache  map[int]bool
 	Enumerated int
 	liveCache  map[*Obj][]*Term
@@ -415,7 +417,7 @@ func (e *Engine) mergeObj(c *Term, a, b *Obj) *Obj {
 		for _, x := range b.Cur {
 			add(CurAlt{And(nc, x.G), x.Idx})
 		}
-		return &Obj{IsIter: true, Cands: a.Cands, CandObj: a.CandObj, MapObj: a.MapObj, Snap: a.Snap, Cur: cur, Epoch: a.Epoch, EffC: a.EffC, ValC: a.ValC, VerC: a.VerC}
+		return &Obj{IsIter: true, Cands: a.Cands, CandObj: a.CandObj, MapObj: a.MapObj, Snap: a.Snap, Perm: a.Perm, Cur: cur, Epoch: a.Epoch, EffC: a.EffC, ValC: a.ValC, VerC: a.VerC}
 	}
 	if a.Thunk != nil && a.Thunk == b.Thunk {
 		return a
@@ -927,7 +929,81 @@ func (e *Engine) rangeMap(c *Ctx, m MapV) IterV {
 			it.CandObj = append(it.CandObj, a.Obj)
 		}
 	}
+	if e.MapOrderND {
+		e.permuteCands(c, it)
+	}
 	return IterV{e.newObj(c, it)}
+}
+
+// permuteCands replaces the snapshot of a map range by a SYMBOLIC PERMUTATION of its live entries: iteration i visits
+// live entry p_i, where p_0..p_{n-1} are fresh variables constrained to be a permutation. One symbolic run then covers
+// every iteration order of the Go map (n <= 4).
+func (e *Engine) permuteCands(c *Ctx, it *Obj) {
+	type liveEnt struct {
+		g   *Term
+		en  MapEntry
+		obj int
+	}
+	var live []liveEnt
+	n0 := len(it.Cands)
+	for i, cand := range it.Cands {
+		if cand.Tomb {
+			continue
+		}
+		g := cand.G
+		for j := i + 1; j < n0 && !g.IsFalse(); j++ {
+			if it.CandObj[j] != it.CandObj[i] {
+				continue
+			}
+			g = And(g, Not(And(it.Cands[j].G, eqV(cand.K, it.Cands[j].K))))
+		}
+		if g.IsFalse() {
+			continue
+		}
+		live = append(live, liveEnt{g, cand, it.CandObj[i]})
+	}
+	n := len(live)
+	if n <= 1 {
+		return
+	}
+	if n > 4 {
+		unsup("symbolic map iteration order over more than 4 live entries (%d)", n)
+	}
+	for _, l := range live {
+		if l.obj != live[0].obj {
+			unsup("symbolic map iteration order over a map value with several alternatives")
+		}
+	}
+	e.permSite++
+	p := make([]*Term, n)
+	for i := range p {
+		p[i] = Var(fmt.Sprintf("perm!%s!%d!%d", e.MapOrderLabel, e.permSite, i), 8)
+		p[i].hasIv, p[i].lo, p[i].hi = true, 0, uint64(n-1)
+		c.S.PC = And(c.S.PC, mk(&Term{op: OUle, args: []*Term{p[i], BV(8, uint64(n-1))}}))
+	}
+	for i := 0; i < n; i++ {
+		for j := i + 1; j < n; j++ {
+			c.S.PC = And(c.S.PC, Not(Eq(p[i], p[j])))
+		}
+	}
+	var cands []MapEntry
+	var objs []int
+	for i := 0; i < n; i++ {
+		var g *Term = TFalse
+		var k, v Value
+		for j := n - 1; j >= 0; j-- {
+			sel := Eq(p[i], BV(8, uint64(j)))
+			g = Ite(sel, live[j].g, g)
+			if k == nil {
+				k, v = live[j].en.K, live[j].en.V
+			} else {
+				k, v = mergeV(sel, live[j].en.K, k), mergeV(sel, live[j].en.V, v)
+			}
+		}
+		cands = append(cands, MapEntry{G: g, K: k, V: v})
+		objs = append(objs, live[0].obj)
+	}
+	it.Cands, it.CandObj, it.Perm = cands, objs, true
 }
 
 func (e *Engine) nextMap(c *Ctx, itv IterV, kt, vt types.Type) Value {
@@ -959,7 +1035,7 @@ func (e *Engine) nextMapZ(c *Ctx, itv IterV, kz, vz Value) TupleV {
 				continue
 			}
 			g := cand.G
-			for j := i + 1; j < n; j++ {
+			for j := i + 1; j < n && !it.Perm; j++ {
 				if it.CandObj[j] != it.CandObj[i] {
 					continue
 				}
@@ -1007,7 +1083,7 @@ func (e *Engine) nextMapZ(c *Ctx, itv IterV, kz, vz Value) TupleV {
 			cur = append(cur, CurAlt{g, i})
 		}
 	}
-	c.S.Heap[itv.Obj] = &Obj{IsIter: true, Cands: it.Cands, CandObj: it.CandObj, MapObj: it.MapObj, Snap: it.Snap, Cur: cur, Epoch: it.Epoch, EffC: eff, ValC: vals, VerC: ver}
+	c.S.Heap[itv.Obj] = &Obj{IsIter: true, Cands: it.Cands, CandObj: it.CandObj, MapObj: it.MapObj, Snap: it.Snap, Perm: it.Perm, Cur: cur, Epoch: it.Epoch, EffC: eff, ValC: vals, VerC: ver}
 	return TupleV{[]Value{BoolV{ok}, key, val}}
 }
 
@@ -2273,11 +2349,11 @@ func (e *Engine) guardedRange(fr *Frame, c *Ctx, b *ssa.BasicBlock, k int, nx *s
 		// effectiveness of candidate i: last snapshot write of its key, and still present
 		cand := it.Cands[i]
 		if cand.Tomb {
-			c.S.Heap[itv.Obj] = &Obj{IsIter: true, Cands: it.Cands, CandObj: it.CandObj, MapObj: it.MapObj, Snap: it.Snap, Cur: []CurAlt{{TTrue, i + 1}}, Epoch: it.Epoch}
+			c.S.Heap[itv.Obj] = &Obj{IsIter: true, Cands: it.Cands, CandObj: it.CandObj, MapObj: it.MapObj, Snap: it.Snap, Perm: it.Perm, Cur: []CurAlt{{TTrue, i + 1}}, Epoch: it.Epoch}
 			continue
 		}
 		g := cand.G
-		for j := i + 1; j < n && !g.IsFalse(); j++ {
+		for j := i + 1; j < n && !g.IsFalse() && !it.Perm; j++ {
 			if it.CandObj[j] != it.CandObj[i] {
 				continue
 			}
@@ -2304,7 +2380,7 @@ func (e *Engine) guardedRange(fr *Frame, c *Ctx, b *ssa.BasicBlock, k int, nx *s
 			}
 			g = And(g, present)
 		}
-		c.S.Heap[itv.Obj] = &Obj{IsIter: true, Cands: it.Cands, CandObj: it.CandObj, MapObj: it.MapObj, Snap: it.Snap, Cur: []CurAlt{{TTrue, i + 1}}, Epoch: it.Epoch}
+		c.S.Heap[itv.Obj] = &Obj{IsIter: true, Cands: it.Cands, CandObj: it.CandObj, MapObj: it.MapObj, Snap: it.Snap, Perm: it.Perm, Cur: []CurAlt{{TTrue, i + 1}}, Epoch: it.Epoch}
 		if g.IsFalse() || And(c.S.PC, g).IsFalse() {
 			continue
 		}
